@@ -210,6 +210,9 @@ theorem sum_range_shift_int {A : Type*} [AddCommMonoid A] (n : ℕ) (h : ℤ →
     rw [← this, ← ih]
     exact sum_congr rfl fun i _ => by congr 1; ring
 
+theorem emod_range (n : ℕ) (i : ℕ) (hi : i ∈ range n) : ((i : ℤ)) % (n : ℤ) = i :=
+  Int.emod_eq_of_lt (by omega) (by have := mem_range.mp hi; omega)
+
 /-! ## the plain DFT character `E n t = exp(-2πi·t/n)` on integers -/
 
 /-- `exp(-2πi·t/n)` for an integer `t` -/
